@@ -58,13 +58,102 @@ def gen_case(rng, i):
     return common.case_json(q, T)
 
 
+# ---------------------------------------------------------------------------------------------------------------
+# typed front-ends: the key fields that must "all equal" are the cells of a dataframe / a sqlite table, with their own types
+
+def leg_typed_join(ns, res, spec):
+    import sqlite3
+    import pandas as pd
+    from .c01 import show
+    rng = random.Random(spec['seed'] * 86028157 + spec['i'])
+
+    class Sink(ns.engine.RBQLOutputWriter):
+        def __init__(self):
+            self.rows = []
+
+        def write(self, fields):
+            self.rows.append(list(fields))
+            return True
+
+    big = [2 ** 53, 2 ** 53 + 1, 2 ** 53 + 2, 2 ** 62 + 1, 2 ** 62 + 3]
+    for n in range(spec['n']):
+        front = ['pandas', 'sqlite'][n % 2]
+        pool = rng.choice([[1, 2, 3, 4], big + [1, 2], [0, 1, 2 ** 53, 2 ** 53 + 1], [10, 20, 30]])
+        na, nb = rng.randrange(1, 6), rng.randrange(1, 6)
+        A = [[rng.choice(pool), rng.choice(['x', 'y', 'z'])] for _ in range(na)]
+        bkind = rng.choice(['int+float', 'int+float', 'int+str', 'int+int+float'])
+        if bkind == 'int+float':
+            B = [[rng.choice(pool), rng.choice([0.5, 1.5, 2.0, -1.25])] for _ in range(nb)]
+        elif bkind == 'int+str':
+            B = [[rng.choice(pool), rng.choice(['p', 'q'])] for _ in range(nb)]
+        else:
+            B = [[rng.choice(pool), rng.choice([7, 8, 2 ** 53 + 1]), rng.choice([0.5, 2.0])] for _ in range(nb)]
+        an, bn = ['id', 'tag'], ['id', 'val', 'w'][:len(B[0])]
+        if front == 'pandas':
+            dfa = pd.DataFrame({'id': pd.Series([r[0] for r in A], dtype='int64'), 'tag': pd.Series([r[1] for r in A], dtype='object')})
+            dfb = pd.DataFrame({bn[j]: pd.Series([r[j] for r in B], dtype=('object' if isinstance(B[0][j], str) else ('float64' if isinstance(B[0][j], float) else 'int64'))) for j in range(len(bn))})
+            conn = None
+            make = lambda: (ns.pandas.DataframeIterator(dfa, normalize_column_names=True), ns.pandas.SingleDataframeRegistry(dfb, 'b', True))
+        else:
+            conn = sqlite3.connect(':memory:')
+            conn.execute('CREATE TABLE t (id INTEGER, tag TEXT)')
+            conn.executemany('INSERT INTO t VALUES (?, ?)', A)
+            conn.execute('CREATE TABLE b (%s)' % ', '.join('%s %s' % (x, 'TEXT' if isinstance(B[0][j], str) else ('REAL' if isinstance(B[0][j], float) else 'INTEGER')) for j, x in enumerate(bn)))
+            conn.executemany('INSERT INTO b VALUES (%s)' % ','.join('?' * len(bn)), B)
+            conn.commit()
+            make = lambda: (ns.sqlite.SqliteRecordIterator(conn, 't'), ns.sqlite.SqliteDbRegistry(conn))
+        wb = len(bn)
+        for jt in ('JOIN', 'LEFT JOIN', 'STRICT LEFT JOIN'):
+            for qtext, proj in (('select a1, a2, b.* %s b on a1 == b1' % jt, lambda a, b, bnr: [a[0], a[1]] + list(b)),
+                                ('select a.id, b2, bNR %s b on a.id == b.id' % jt, lambda a, b, bnr: [a[0], b[1], bnr]),
+                                ('select NR, b1 %s b on b1 == a1 where b1 is None or b1 > 0' % jt, lambda a, b, bnr: None)):
+                exp, fail = [], False
+                for i, a in enumerate(A):
+                    ms = [(k + 1, b) for k, b in enumerate(B) if b[0] == a[0]]
+                    if jt == 'STRICT LEFT JOIN' and len(ms) != 1:
+                        fail = True
+                        break
+                    if not ms and jt != 'JOIN':
+                        ms = [(None, [None] * wb)]
+                    for bnr, b in ms:
+                        if proj(a, b, bnr) is None:
+                            if b[0] is None or b[0] > 0:
+                                exp.append([i + 1, b[0]])
+                        else:
+                            exp.append(proj(a, b, bnr))
+                sink = Sink()
+                err = None
+                try:
+                    it, reg = make()
+                    ns.rbql.query(qtext, it, sink, [], reg)
+                except Exception as e:
+                    err = '%s: %s' % (type(e).__name__, str(e)[:150])
+                res.evaluations += 1
+                res.count('typed_join_runs:' + front)
+                res.nontrivial('typed-join', front, qtext, repr(A), repr(B))
+                got_s = None if err else [[show(v) for v in r] for r in sink.rows]
+                exp_s = [[show(v) for v in r] for r in exp]
+                cs = {'leg': 'typed-join', 'front_end': front, 'query_text': qtext, 'A': [[show(v) for v in r] for r in A], 'B': [[show(v) for v in r] for r in B]}
+                if fail:
+                    if err is None:
+                        res.violation('py:typed-strict-left-join-does-not-fail:' + front, '[py/%s] %s over A=%r B=%r returned %r although some A record has no single match' % (front, qtext, A, B, got_s), cs)
+                elif got_s != exp_s:
+                    res.violation('py:typed-join-pairs-differ:' + front, '[py/%s] %s over A=%r B=%r (%s) -> %s ; expected %r' % (front, qtext, A, B, bkind, err or got_s, exp_s), cs)
+        if conn is not None:
+            conn.close()
+        if n % 97 == 0:
+            res.sample({'leg': 'typed-join', 'front_end': front, 'A': [[show(v) for v in r] for r in A], 'B': [[show(v) for v in r] for r in B]})
+
+
 def plan(tier, seed):
     k = NSHARDS[tier]
-    return [{'k': k, 'i': i, 'n': CASES[tier] // k} for i in range(k)]
+    return [{'k': k, 'i': i, 'n': CASES[tier] // k} for i in range(k)] + [{'kind': 'typed-join', 'i': i, 'n': 120 if tier == 'quick' else 1500} for i in range(2 if tier == 'quick' else 6)]
 
 
 def run_shard(spec, res):
     ns = env.import_rbql()
+    if spec.get('kind') == 'typed-join':
+        return leg_typed_join(ns, res, spec)
     rng = random.Random(spec['seed'] * 32452843 + spec['i'])
     js = common.JsLeg(res, PROPERTY, classify_js)
     try:
@@ -99,8 +188,8 @@ def run_shard(spec, res):
 def summarize(tier, seed, m):
     shapes = sorted(k[6:] for k in m['counters'] if k.startswith('shape:'))
     return {
-        'rule': 'pairs of small tables with duplicate keys on both sides (m x n blocks), ragged / empty A and B, None cells; JOIN / INNER JOIN / LEFT JOIN / LEFT OUTER JOIN / STRICT LEFT JOIN; 1-3 key pairs with == or =, either side order, NR / aNR / a.NR against bNR / b.NR / fields in every spelling; downstream rotating over plain select, WHERE (incl. b-field is None), ORDER BY, DISTINCT, DISTINCT COUNT, UNNEST, aggregates (COUNT, ARRAY_AGG of b-fields and bNR, grouped by an a-field), UPDATE with and without WHERE, TOP, b.* expansion. distinct_nontrivial = distinct (query, A, B) with a non-empty reference result or a predicted error.',
-        'required': ['py_cases', 'join_table_read_pattern_checks', 'fan_out_cases', 'predicted_error_a_side', 'predicted_error_b_side', 'js_cases', 'join:STRICT LEFT JOIN', 'join:LEFT OUTER JOIN', 'keypairs:3'],
+        'rule': 'pairs of small tables with duplicate keys on both sides (m x n blocks), ragged / empty A and B, None cells; JOIN / INNER JOIN / LEFT JOIN / LEFT OUTER JOIN / STRICT LEFT JOIN; 1-3 key pairs with == or =, either side order, NR / aNR / a.NR against bNR / b.NR / fields in every spelling; downstream rotating over plain select, WHERE (incl. b-field is None), ORDER BY, DISTINCT, DISTINCT COUNT, UNNEST, aggregates (COUNT, ARRAY_AGG of b-fields and bNR, grouped by an a-field), UPDATE with and without WHERE, TOP, b.* expansion. a typed front-ends leg: dataframes (int64 key next to float64 / object / int64 columns - all-numeric join frames included) through DataframeIterator + SingleDataframeRegistry and sqlite tables (INTEGER / REAL / TEXT) through SqliteRecordIterator + SqliteDbRegistry, integer keys up to 2**62 (beyond float precision), JOIN / LEFT JOIN / STRICT LEFT JOIN, three select shapes, every emitted field compared by value and type with a nested-loop pairing; distinct_nontrivial = distinct (query, A, B) with a non-empty reference result or a predicted error.',
+        'required': ['typed_join_runs:pandas', 'typed_join_runs:sqlite', 'py_cases', 'join_table_read_pattern_checks', 'fan_out_cases', 'predicted_error_a_side', 'predicted_error_b_side', 'js_cases', 'join:STRICT LEFT JOIN', 'join:LEFT OUTER JOIN', 'keypairs:3'],
         'extra': {'shapes_seen': shapes},
         'assumptions': ['rv/model/refsem.py expand() is the join semantics of the statement'],
     }
